@@ -307,6 +307,7 @@ impl<'l, T: Debug> OrderedLocalQueue<'l, T> {
         let count = self.local_len() / 2;
         let mut done = 0;
         while done < count {
+            let before = done;
             for entry in self.queue.iter().rev() {
                 if done >= count {
                     break;
@@ -316,10 +317,16 @@ impl<'l, T: Debug> OrderedLocalQueue<'l, T> {
                     done += 1;
                 }
             }
+            if done == before {
+                // every local ring is empty: siblings stole the rest and the count was stale,
+                // only what was moved here is still accounted for
+                self.len.store(done, Ordering::Release);
+                break;
+            }
         }
         // refresh count
         self.len
-            .store(self.local_len().saturating_sub(count), Ordering::Release);
+            .store(self.local_len().saturating_sub(done), Ordering::Release);
         //直接放到全局队列
         self.shared.push_with_priority(priority, item);
     }
@@ -386,6 +393,9 @@ impl<'l, T: Debug> OrderedLocalQueue<'l, T> {
         if let Some(val) = self.pop_local() {
             return Some(val);
         }
+        // every local ring is empty here, whatever the count says (siblings steal without
+        // touching it), refresh it so that this queue may steal and is not reported as non-empty
+        self.len.store(0, Ordering::Release);
         if self.try_lock() {
             //尝试从其他本地队列steal
             let local_queues = &self.shared.local_queues;
